@@ -358,23 +358,31 @@ pub fn rule_variant(rule: Option<Rule>, name: &str) -> String {
     }
 }
 
+/// the `r#` of a raw identifier is spelling, in whichever segment of a name it stands
+pub fn unraw_segments(n: &str) -> String {
+    n.split("::").map(|seg| seg.strip_prefix("r#").unwrap_or(seg)).collect::<Vec<_>>().join("::")
+}
+
 pub fn field_name(r: &Recv, f: &Field) -> String {
     match &f.rename {
         // (a rename spelled as a raw identifier names the identifier: `r#` is spelling)
-        Some(n) => n.strip_prefix("r#").unwrap_or(n).to_string(),
+        Some(n) => unraw_segments(n),
         None => rule_field(r.rename_all, &f.rust),
     }
 }
 
 pub fn variant_name(r: &Recv, v: &Variant) -> String {
     match &v.rename {
-        Some(n) => n.strip_prefix("r#").unwrap_or(n).to_string(),
+        Some(n) => unraw_segments(n),
         None => rule_variant(r.rename_all, &v.rust),
     }
 }
 
-/// a name a user can write as a meta item name (single identifier)
+/// a name a user can write as a meta item name (an identifier, or several joined by `::`)
 pub fn addressable(name: &str) -> bool {
+    if name.contains("::") {
+        return name.split("::").all(addressable);
+    }
     let mut cs = name.chars();
     match cs.next() {
         Some(c) if c.is_alphabetic() || c == '_' => {}
@@ -488,7 +496,12 @@ impl<'a> Gen<'a> {
             f.ty = self.field_ty(depth, true);
             if opts {
                 if self.rng.chance(1, 5) {
-                    f.rename = Some(if self.rng.chance(1, 10) { (*self.rng.pick(&["r#loop", "r#while"])).to_string() } else { format!("{}_{}", *self.rng.pick(&["ren", "nm", "q"]), self.rng.below(9)) });
+                    f.rename = Some(match self.rng.below(10) {
+                        0 => (*self.rng.pick(&["r#loop", "r#while"])).to_string(),
+                        // a name of several segments; a keyword (or a raw spelling) may stand in any of them
+                        1 => format!("{}::{}{}", *self.rng.pick(&["opt", "ns", "r#mod", "serde"]), *self.rng.pick(&["type", "level", "r#fn", "rename", "x"]), self.rng.below(3).checked_sub(1).map(|n| format!("::s{n}")).unwrap_or_default()),
+                        _ => format!("{}_{}", *self.rng.pick(&["ren", "nm", "q"]), self.rng.below(9)),
+                    });
                 }
                 let scalar = matches!(f.ty, Ty::Sc(_));
                 let transformable = matches!(f.ty, Ty::Sc(Sc::I64) | Ty::Sc(Sc::U8) | Ty::Sc(Sc::Str));
@@ -796,7 +809,11 @@ impl<'a> Gen<'a> {
                 }
                 if opts {
                     if self.rng.chance(1, 6) {
-                        v.rename = Some(if self.rng.chance(1, 10) { "r#loop".to_string() } else { format!("vr_{}", self.rng.below(9)) });
+                        v.rename = Some(match self.rng.below(10) {
+                            0 => "r#loop".to_string(),
+                            1 => format!("{}::{}", *self.rng.pick(&["opt", "ns", "r#mod"]), *self.rng.pick(&["type", "quiet", "r#fn", "v"])),
+                            _ => format!("vr_{}", self.rng.below(9)),
+                        });
                     }
                     if self.rng.chance(1, 7) {
                         v.skip = true;
